@@ -9,6 +9,7 @@ import (
 	"github.com/zishang520/engine.io-go-parser/packet"
 	"github.com/zishang520/engine.io/v2/log"
 	"github.com/zishang520/engine.io/v2/types"
+	"github.com/zishang520/engine.io/v2/utils"
 	"github.com/zishang520/engine.io/v2/vhook"
 	"github.com/zishang520/engine.io/v2/webtransport"
 )
@@ -24,11 +25,13 @@ type webTransport struct {
 	mu      sync.Mutex
 	reading sync.Once
 
-	// sending and closePending (guarded by stateMu) let DoClose leave the
-	// connection open until a batch that is still being written is out
+	// sending and closePending (guarded by stateMu) let an orderly close leave
+	// the connection open until a batch that is still being written is out;
+	// closeTimer bounds that wait
 	stateMu      sync.Mutex
 	sending      bool
 	closePending bool
+	closeTimer   *utils.Timer
 }
 
 // WebTransport transport
@@ -149,9 +152,11 @@ func (w *webTransport) send(packets []*packet.Packet) {
 		w.stateMu.Lock()
 		w.sending = false
 		closeNow := w.closePending
+		closeTimer := w.closeTimer
 		w.stateMu.Unlock()
 		if closeNow {
 			// DoClose ran while this batch was being written
+			utils.ClearTimeout(closeTimer)
 			w.session.CloseWithError(0, "")
 		}
 
@@ -259,8 +264,11 @@ func (w *webTransport) DoClose(fn types.Callable) {
 	defer func() {
 		w.stateMu.Lock()
 		if w.sending {
-			// the writer goroutine still holds a batch: it closes the session when it is done
+			// the writer goroutine still holds a batch: it closes the connection when
+			// it is done. The wait is bounded: a peer that has stopped reading would
+			// otherwise keep the connection and the blocked writer for ever.
 			w.closePending = true
+			w.closeTimer = utils.SetTimeout(func() { w.session.CloseWithError(0, "") }, orderlyCloseTimeout)
 			w.stateMu.Unlock()
 			return
 		}
